@@ -244,6 +244,18 @@ def run_operators(rep, crate, cfg):
             want = _norm(("op", "BitXor", val(P(1), True), val(P(2), rhs_ref)))
             ok = len(ls.events) == 1 and _norm(ls.events[0]["args"][0]) == val(P(1), True) and _norm(ls.events[0]["args"][1]) == want \
                 and not canon_dnf(tb, ls.events[0]["block"])[0]
+            if not ok and not ls.events and not rhs_ref:
+                # by-value `+=` may delegate to the by-reference impl:  *self += &other
+                cs = [(bi, t) for bi, t in f.calls()]
+                if len(cs) == 1:
+                    bi, t = cs[0]
+                    callee = crate.fns.get(t.get("resolved") or t.get("callee") or "")
+                    a = [tb.operand(bi, "T", x) for x in t["args"]]
+                    while a and a[0][0] == "ref" and a[0][1][0] == "deref":
+                        a[0] = a[0][1][1]
+                    ok = callee is not None and "AddAssign<&" in (callee.f.get("impl_trait") or "") and \
+                        callee.f.get("impl_self", {}).get("s", "").endswith(octet) and len(a) == 2 and a[0] == P(1) and a[1] == ("ref", P(2)) \
+                        and not canon_dnf(tb, bi)[0]
             rep.check(ok, R, k, "xor-assign", where, "add_assign xors the operand into self unconditionally",
                       {"events": loops.render(ls)[:200]}, cfg)
         elif (tr or "").startswith(("std::ops::Mul", "core::ops::Mul", "std::ops::Div", "core::ops::Div")):
@@ -253,10 +265,11 @@ def run_operators(rep, crate, cfg):
                 rt = tb.return_term()
                 ok = rt[0] == "call" and rt[2] == (("ref", P(1)), ("ref", P(2))) and isinstance(rt[1], str) and \
                     rt[1] in crate.fns and crate.fns[rt[1]].f.get("impl_trait", "").startswith(tr.split("<")[0])
-                rep.check(ok, R, k, "by-value-delegates", where, "%s by value delegates to the by-reference operator" % name,
-                          {"found": fmt(rt)[:160]}, cfg)
-                continue
-            a, b = val(P(1), True), val(P(2), True)
+                if ok:
+                    rep.ok(R, where, "%s by value delegates to the by-reference operator" % name, None, cfg)
+                    continue
+                # not a delegation: the by-value operator must have the operator's shape itself
+            a, b = val(P(1), byref), val(P(2), byref)
             A0 = terms.normalise(("op", "Eq", ("const", 0), a))
             B0 = terms.normalise(("op", "Eq", ("const", 0), b))
             # assignments to the return place
